@@ -135,7 +135,8 @@ def gen_world(rng):
     r = rng.random()
     mode = "poser" if r < 0.22 else "preger" if r < 0.36 else "mixed"
     fs = rng.choice([20.0, 50.0, 100.0, 128.0])
-    w = {"mode": mode, "fs": fs, "seed": rng.getrandbits(40)}
+    w = {"mode": mode, "fs": fs, "seed": rng.getrandbits(40),
+         "layout": rng.choices(["C", "F", "view"], weights=[0.75, 0.15, 0.10])[0]}
     if mode == "preger":
         nds = rng.choice([1, 2, 2, 3])
         nch = [rng.randint(3, 5) for _ in range(nds)]
@@ -224,11 +225,19 @@ def gen_world(rng):
 def build_arrays(w):
     out = []
     for i, s in enumerate(w["setups"]):
-        out.append([
-            datagen.resonator_record(w["seed"] + 104729 * i + 7919 * j, s["ndat"][j], s["nch"][j], w["fs"],
-                                     nmodes=2, trend=(j + i) % 2 == 0)
-            for j in range(len(s["ndat"]))
-        ])
+        arrs = []
+        for j in range(len(s["ndat"])):
+            a = datagen.resonator_record(w["seed"] + 104729 * i + 7919 * j, s["ndat"][j], s["nch"][j], w["fs"],
+                                         nmodes=2, trend=(j + i) % 2 == 0)
+            lay = w.get("layout", "C")
+            if lay == "F":
+                a = np.asfortranarray(a)
+            elif lay == "view":
+                big = np.full((a.shape[0] + 4, a.shape[1] + 3), 3.5)
+                big[2:2 + a.shape[0], 1:1 + a.shape[1]] = a
+                a = big[2:2 + a.shape[0], 1:1 + a.shape[1]]
+            arrs.append(a)
+        out.append(arrs)
     return out
 
 
@@ -620,10 +629,11 @@ def _mpe_op(rng, wd, si, ai, nmodes=None):
     st = wd.st[ai]
     spec = wd.w["algs"][ai]
     args = None
-    if st.ran and not st.unknown and not st.stale:
-        ent = wd.reference(ai)
-        if ent["exc"] is None:
-            args = gen_mpe_args(rng, spec["cls"], ent["alg"], wd.algs[ai].fs, nmodes=nmodes, hopeless=rng.random() < 0.05)
+    if st.ran and wd.algs[ai].result is not None:
+        try:
+            args = gen_mpe_args(rng, spec["cls"], wd.algs[ai], wd.algs[ai].fs, nmodes=nmodes, hopeless=rng.random() < 0.05)
+        except Exception:
+            args = None  # a result that cannot even be inspected (swallowed fault): fall back to fixed arguments
     if args is None:
         # gate probe: mpe before any (successful) run
         fam = spec["cls"]
@@ -974,6 +984,10 @@ def _do_run(wd, op, step, before):
 
 
 def _do_mpe(wd, op, step, before):
+    """Extraction is a function of (the stored result, the current parameters, the arguments): the reference applies
+    the same mpe to a private copy of exactly what the algorithm held before the call, under the pristine package
+    state. (The stored result itself was judged against an isolated run when it was produced; comparing with a
+    fresh run here would be unfair after a restart, because pickle changes the memory layout of the bound data.)"""
     w = wd.w
     si = op["setup"]
     setup = wd.setups[si]
@@ -986,7 +1000,13 @@ def _do_mpe(wd, op, step, before):
             pass
         return "gate"
     st = wd.st[ai]
+    alg = wd.algs[ai]
     name = w["algs"][ai]["name"]
+    pre = None
+    if alg.result is not None:
+        pre = copy.copy(alg)
+        pre.result = copy.deepcopy(alg.result)
+        pre.run_params = copy.deepcopy(alg.run_params)
     _arm(wd, op)
     try:
         setup.mpe(op["name"], **copy.deepcopy(op["args"]))
@@ -995,14 +1015,9 @@ def _do_mpe(wd, op, step, before):
         rexc = e
     fired = list(wd.plan.fired)
     after = wd.snapshot()
-    exp = None
-    if st.ran and not st.unknown and not st.stale:
-        ent = wd.reference(ai)
-        if ent["exc"] is None:
-            exp = wd.reference(ai, want_mpe=op["args"])
     b, a = before["algs"][ai]["result"], after["algs"][ai]["result"]
     allow = {"params": {ai}, "result": {ai}}
-    if not st.ran:
+    if not st.ran or pre is None:
         wd.inc("probe.gate_mpe_before_run")
         if rexc is None:
             wd.violate("gate.no_exc", step, f"mpe on {name}, which has never run, did not raise", ai)
@@ -1023,32 +1038,43 @@ def _do_mpe(wd, op, step, before):
         wd.inc("probe.fault_propagated" if rexc is not None else "probe.swallowed_fault")
         wd.check_isolation(before, after, step, allow)
         return "fault"
-    if exp is None:
-        st.mpe = "unknown"
-        wd.check_isolation(before, after, step, allow)
-        return "unjudged"
-    if exp["exc"] is not None:
+    wd.plan.reset()
+    tok = _S["guard"].enter()
+    try:
+        pre.mpe(**copy.deepcopy(op["args"]))
+        pexc = None
+    except Exception as e:
+        pexc = e
+    finally:
+        _S["guard"].exit(tok)
+    want = field_hashes(pre.result)
+    if (pexc is None) != (rexc is None) or (pexc is not None and type(pexc) is not type(rexc)):
+        wd.violate("exc.type_neq_ref", step,
+                   f"mpe on {name}: the same extraction on a private copy of its result "
+                   f"{'returns' if pexc is None else 'raises ' + type(pexc).__name__}, in this history it "
+                   f"{'returned' if rexc is None else 'raised ' + type(rexc).__name__ + ': ' + str(rexc)}", ai)
+        return "exc"
+    if a != want:
+        wd.violate("mpe.neq_ref", step, f"mpe on {name}: result differs from the same extraction on a private copy of its "
+                                         f"stored result in fields {diff_fields(a, want)}", ai)
+        return "ok"
+    if after["algs"][ai]["params"] != h_obj(pre.run_params):
+        wd.violate("mpe.neq_ref", step, f"mpe on {name}: run parameters after the call differ from those of the isolated extraction", ai)
+        return "ok"
+    fn = getattr(pre.result, "Fn", None)
+    st.mpe = "no" if fn is None else "yes"
+    if rexc is not None:
         wd.inc("fault.fired.nat_exc")
-        if rexc is None or type(rexc).__name__ != exp["exc"]:
-            wd.violate("exc.type_neq_ref", step,
-                       f"mpe on {name}: isolated extraction raises {exp['exc']}, here "
-                       f"{'it returned' if rexc is None else type(rexc).__name__}", ai)
-            return "exc"
-        st.mpe = "unknown"
         wd.check_isolation(before, after, step, allow)
         return "nat_exc"
-    if rexc is not None:
-        wd.violate("exc.type_neq_ref", step, f"mpe on {name}: isolated extraction succeeds, here it raised {type(rexc).__name__}: {rexc}", ai)
-        return "exc"
-    if a != exp["fields"]:
-        wd.violate("mpe.neq_ref", step, f"mpe on {name}: result differs from the isolated run+mpe in fields {diff_fields(a, exp['fields'])}", ai)
-        return "ok"
     wd.inc("probe.mpe_ok_equal_to_isolated_reference")
-    if st.mpe == "yes":
+    if st.mpe_args is not None:
         wd.inc("probe.repeat_mpe")
     if st.loaded:
         wd.inc("probe.mpe_after_restart")
-    st.mpe, st.mpe_args = "yes", copy.deepcopy(op["args"])
+    if st.stale:
+        wd.inc("probe.mpe_on_result_of_older_parameters_or_data")
+    st.mpe_args = copy.deepcopy(op["args"])
     wd.check_isolation(before, after, step, allow)
     return "ok"
 
